@@ -356,6 +356,9 @@ pub fn run(tier: Tier) -> i32 {
         }
     }
 
+    let node_cases = node_level(&report);
+    evals += node_cases;
+    nontrivial += node_cases;
     let cov = json!({
         "evaluations": evals,
         "distinct_nontrivial": nontrivial,
@@ -367,6 +370,72 @@ pub fn run(tier: Tier) -> i32 {
         "samples": samples.items,
     });
     report.finish(cov)
+}
+
+
+/// Oracle 4 (node level): a real `Alpenglow` node that receives two validly signed, conflicting
+/// commitments for one slice must report the leader (observable: it votes skip for the leader's
+/// window long before any timeout), whichever arrives first and even if the conflict is only
+/// visible through the cached commitment.
+fn node_level(report: &Report) -> usize {
+    use crate::simnet::*;
+    use alpenglow::consensus::Vote;
+    use std::collections::BTreeSet;
+    use std::time::Duration;
+    let mut cases = 0;
+    for (cname, second_differs_in) in [("different-data", "data"), ("different-last-flag", "flag")] {
+        for order in ["genuine-first", "conflicting-first"] {
+            cases += 1;
+            let r = catch(|| {
+                let rt = runtime(3);
+                rt.block_on(async {
+                    let stakes = [21u64, 20, 20, 19, 20];
+                    let attacker = 3usize;
+                    let victim = 1usize;
+                    let absent: BTreeSet<usize> = [0usize, 2, 3, 4].into_iter().collect();
+                    let cluster = Cluster::start(&stakes, Duration::from_millis(1), &absent);
+                    cluster.hub.inner.lock().unwrap().crashed.clear();
+                    let sk = &cluster.epoch.sig_sks[attacker];
+                    let slot = 13u64; // window 3 is led by validator 3
+                    let base = SliceSpec { parent: None, txs: vec![vec![1; 20]], raw: None };
+                    let (_, a) = sign_slice(slot, 1, false, &base, sk);
+                    let (_, b) = if second_differs_in == "data" {
+                        sign_slice(slot, 1, false, &SliceSpec { parent: None, txs: vec![vec![2; 20]], raw: None }, sk)
+                    } else {
+                        sign_slice(slot, 1, true, &base, sk)
+                    };
+                    let (x, y) = if order == "genuine-first" { (&a, &b) } else { (&b, &a) };
+                    tokio::time::sleep(Duration::from_millis(20)).await;
+                    cluster.hub.inject(port(victim, CH_DISS), wincode::serialize(x[5].as_shred()).unwrap(), Duration::from_millis(1));
+                    cluster.hub.inject(port(victim, CH_DISS), wincode::serialize(y[9].as_shred()).unwrap(), Duration::from_millis(5));
+                    tokio::time::sleep(Duration::from_millis(200)).await;
+                    let g = cluster.hub.inner.lock().unwrap();
+                    let skips: BTreeSet<u64> = g.votes.iter().filter_map(|(_, from, v)| match v {
+                        Vote::Skip(_) if *from == victim => Some(v.slot().inner()),
+                        _ => None,
+                    }).collect();
+                    (skips, crate::common::take_thread_panics())
+                })
+            });
+            let replay = json!({"oracle": "node-level-equivocation", "conflict": cname, "order": order});
+            match r {
+                Err(p) => report.violation("C12:node-panics-on-equivocation".to_string(), p, replay),
+                Ok((skips, panics)) => {
+                    if !panics.is_empty() {
+                        report.violation("C12:node-panics-on-equivocation".to_string(), format!("{:?}", panics.first()), replay.clone());
+                    }
+                    if !skips.contains(&13) {
+                        report.violation(
+                            format!("C12:equivocation-not-reported-by-node:{cname}:{order}"),
+                            format!("a real node received two validly signed conflicting commitments ({cname}, {order}) for slot 13 slice 1 and did not report the leader (no skip vote for the window within 200 ms; skip votes seen for slots {skips:?})"),
+                            replay,
+                        );
+                    }
+                }
+            }
+        }
+    }
+    cases
 }
 
 fn bs_cached(bs: &BsH, slot: u64, slice: usize) -> Option<SliceCommitment> {
